@@ -251,13 +251,18 @@ theorem eos_is_reported (steps : List RStep) (cap : Nat) (hcap : 0 < cap)
     ((Reader.init.run steps).step (.read cap)).eos = (Reader.init.run steps).eos + 1 :=
   reader_reports_eos steps cap hcap hfin hempty
 
-/-- `read_to_end`: the `(offset, chunk)` list of consecutive chunks (any chunking, any start offset) is assembled
-    into exactly the stream bytes. PARTIAL: stated for chunks arriving in offset order; `read_to_end` reads
-    unordered, and the assembly of a permuted chunk list is only exercised by the harness. -/
-theorem read_to_end_assembles_consecutive_chunks_partial (parts : List Bytes) (off : Nat)
+/-- `read_to_end` reads the rest of the stream UNORDERED and reassembles it from `(offset, bytes)` chunks placed
+    relative to the LOWEST offset seen: for every chunking `parts` of the remainder of the stream from the current
+    read position `off` (bytes `0..off` were returned by earlier `read` / `read_chunk` / `read_chunks` calls) and
+    every arrival order `chunks` of those pieces, the result is exactly the contiguous remainder — not longer, not
+    shifted, nothing but the peer's bytes. -/
+theorem read_to_end_assembles_the_remainder_in_any_arrival_order (parts : List Bytes) (off : Nat)
+    (chunks : List (Nat × Bytes)) (hperm : chunks.Perm (withOffsets off parts))
     (hoff : off + parts.flatten.length < 2 ^ 64 - 1) :
-    assemble (withOffsets off parts) = parts.flatten :=
-  assemble_in_order parts off hoff
+    assemble chunks = parts.flatten :=
+  assemble_any_order parts off chunks hperm hoff
+
+example : assemble [(7, [4, 5]), (9, [6]), (5, [2, 3])] = [2, 3, 4, 5, 6] := by decide
 
 example :
     let r := Reader.init.run [.deliver [1, 2, 3], .read 2, .deliver [4], .read 8, .read 8, .finish, .read 8, .read 1]
